@@ -28,6 +28,7 @@ const (
 	SConsSVGSave
 	SGoStart     // a consumer goroutine that has been created but has not run yet
 	SWorkerStart // an evaluation worker that has been created but has not run yet
+	SAuto        // automatically inserted hook before a synchronisation operation (cmd/instrument)
 	SHarness
 	siteCount
 )
@@ -38,7 +39,7 @@ var siteNames = map[simcore.Site]string{
 	SCaller: "caller", SConsTri: "cons.tri", SConsSTL: "cons.stl", SConsSTLFlush: "cons.stl.flush",
 	SCons3MF: "cons.3mf", SCons3MFEnc: "cons.3mf.encode", SConsDXF: "cons.dxf", SConsDXFSave: "cons.dxf.save",
 	SConsSVG: "cons.svg", SConsSVGSave: "cons.svg.save", SHarness: "harness",
-	SGoStart: "go.start", SWorkerStart: "worker.start",
+	SGoStart: "go.start", SWorkerStart: "worker.start", SAuto: "auto",
 }
 
 var siteByName = func() map[string]simcore.Site {
@@ -67,6 +68,7 @@ var hookSites = map[string]simcore.Site{
 	"render.writeDXF.start":     SGoStart,
 	"render.writeSVG.start":     SGoStart,
 	"render.evalRoutines.start": SWorkerStart,
+	"auto":                      SAuto,
 }
 
 // consumer-side sites (the "stalled consumer" victim class)
